@@ -187,3 +187,32 @@ func VerifC13_ProcessAllocations() {
 }
 
 var _ = resources.Zero
+
+// C01/F16 shape: a foreign allocation is reported again after its node was removed and registered again
+func VerifC01_P_ForeignAllocationAfterNodeReAdd() {
+	vPanics(false)
+	vUnwind(40)
+	w := vPartition(1)
+	res := vResPos("f")
+	mk := func() *objects.Allocation {
+		return objects.NewAllocationFromSI(&si.Allocation{AllocationKey: "foreign-1", NodeID: "node-1", ResourcePerAlloc: res.ToProto(),
+			AllocationTags: map[string]string{"foreign": "default"}})
+	}
+	_, _, e1 := w.pc.UpdateAllocation(mk())
+	vAssert(e1 == nil, "world: foreign allocation accepted")
+	n1 := w.pc.GetNode("node-1")
+	for i := 0; i < vNK(); i++ {
+		vAssert(rv(n1.GetOccupiedResource(), i) == rv(res, i), "N a foreign allocation is booked as occupied on its node")
+	}
+	capRes := n1.GetCapacity()
+	w.pc.removeNode("node-1")
+	n2 := objects.NewNode(nodeInfo("node-1", capRes))
+	e2 := w.pc.AddNode(n2)
+	_, _, e3 := w.pc.UpdateAllocation(mk())
+	vAssert(e2 == nil && e3 == nil, "world: node registered again and the foreign allocation reported again")
+	listed := n2.GetAllocation("foreign-1") != nil
+	for i := 0; i < vNK(); i++ {
+		vAssert(!listed || rv(n2.GetOccupiedResource(), i) == rv(res, i), "N a node that lists a foreign allocation has it booked as occupied (available = capacity - allocated - occupied)")
+	}
+	vReach("end")
+}
